@@ -208,3 +208,22 @@ package v2
 //@   check   forall(j, 0, 32, powDigest[j] == blake2b256(data)[j])
 //@   check   0 <= sufficientTrailing && sufficientTrailing <= 41 && pow(3, sufficientTrailing) >= (mathint(len(data)) + 8) * mathint(targetScore) && implies(sufficientTrailing > 0, pow(3, sufficientTrailing - 1) < (mathint(len(data)) + 8) * mathint(targetScore))
 //@   check   target != nil && *target == pow(3, 243) / ((mathint(len(data)) + 8) * mathint(targetScore) + 1)
+
+// worker: a nonce that is returned is the base nonce of a batch plus the lane that checkStateTrits selected,
+// the trit buffer of lane j carries the b1t6 encoding of base + j in its nonce field (trits 192..239), and the
+// selected lane passes the three-stage test on the state copied from the batched Curl (whose contract is
+// assumed, see /verif/contracts/deps/iota_bct.spec). The digest field of the buffers is not restated.
+//@ func (w *Worker) worker(powDigest []byte, startNonce uint64, sufficientTrailing int, target *big.Int, done *uint32, counter *uint64) (r uint64, err error)
+//@   props C12
+//@   repr uint
+//@   opaque hvlane
+//@   requires len(powDigest) == 32 && done != nil && counter != nil && target != nil && 1 <= sufficientTrailing
+//@   panics  when sufficientTrailing > 243
+//@   modifies *counter
+//@   loop 1 unroll
+//@   loop 2 invariant forall(j, 0, 64, len(buf[j]) == 243)
+//@   loop 2.1 unroll
+//@   check   implies(isnil(err), 0 <= i && i < 64 && r == nonce + uint64(i))
+//@   check   implies(isnil(err), bitat(orx(l, h, 244 - sufficientTrailing, 243), i) == 0 && (bitat(orx(l, h, 243 - sufficientTrailing, 243), i) == 0 || hvlane(l, h, i) <= *target))
+//@   check   implies(isnil(err), forall(j, 0, 64, forall(k, 0, 8, b1t6.val6(buf[j], 192 + 6*k) == b1t6.sbyte(byte((nonce + uint64(j)) >> (8*k))))))
+//@   ensures implies(!isnil(err), r == 0)
